@@ -20,6 +20,7 @@ CONSTANTS
  EMIT <- MC_EMIT
  ListOrders <- MC_ListOrders
  BatchAtEnd <- MC_BatchAtEnd
+ CoordPkps <- MC_CoordPkps
 INIT Init
 NEXT Next
 CHECK_DEADLOCK FALSE
